@@ -376,7 +376,7 @@ pub fn judge_linearizable(p: &Program, ex: &Exec) -> Vec<String> {
 /// C02 on scheduled executions: every crash image of the execution's device log is
 /// judged against the acknowledgement windows derived from a linearization of the
 /// history (a flush acknowledges everything that completed before it was invoked).
-pub fn judge_acknowledged(p: &Program, ex: &Exec, seen: &Mutex<HashSet<u128>>) -> Vec<String> {
+pub fn judge_acknowledged(p: &Program, ex: &Exec, cache: &Mutex<std::collections::HashMap<u64, Vec<String>>>) -> Vec<String> {
     use crate::crash::{self, KeyHist, Obligations};
     let mut v = judge_linearizable(p, ex);
     let Some(init0) = ex.init.as_ref() else { return v };
@@ -435,10 +435,29 @@ pub fn judge_acknowledged(p: &Program, ex: &Exec, seen: &Mutex<HashSet<u128>>) -
     let from = ex.setup_recs.last().map(|r| r.log_response).unwrap_or(0);
     let opts = crash::CrashOpts { sector_tear: false, reopen_cycles: 0, nest: 0, now: ex.now };
     let ctx = hash64(&[p.name.as_bytes(), format!("{:?}{:?}", ob.hists, ob.acks).as_bytes()]);
-    let (_st, findings) = crash::check_history(&p.cfg, &ex.base, &ex.log, &ob, from, &opts, seen, ctx);
-    for f in findings {
-        v.push(format!("{} [crash image {}]", f.msg, f.desc));
+    // identical device logs with identical obligations have identical verdicts: cache per execution
+    let mut log_bytes: Vec<u8> = Vec::new();
+    for ev in &ex.log[from.min(ex.log.len())..] {
+        match ev {
+            crate::session::IoEv::W { off, data, .. } => {
+                log_bytes.extend_from_slice(&off.to_le_bytes());
+                log_bytes.extend_from_slice(&crate::util::hash64(&[data]).to_le_bytes());
+            }
+            crate::session::IoEv::Fb => log_bytes.push(1),
+            crate::session::IoEv::Fe { .. } => log_bytes.push(2),
+            crate::session::IoEv::Mark(..) => {}
+        }
     }
+    let key = hash64(&[&ctx.to_le_bytes(), &log_bytes]);
+    if let Some(hit) = cache.lock().unwrap().get(&key) {
+        v.extend(hit.iter().cloned());
+        return v;
+    }
+    let seen: Mutex<HashSet<u128>> = Mutex::new(HashSet::new());
+    let (_st, findings) = crash::check_history(&p.cfg, &ex.base, &ex.log, &ob, from, &opts, &seen, ctx);
+    let msgs: Vec<String> = findings.into_iter().map(|f| format!("{} [crash image {}]", f.msg, f.desc)).collect();
+    cache.lock().unwrap().insert(key, msgs.clone());
+    v.extend(msgs);
     v
 }
 
